@@ -4,8 +4,12 @@ import asyncio
 from dataclasses import dataclass, field
 from typing import TYPE_CHECKING
 
+from repid.message import MessageCategory
+
 if TYPE_CHECKING:
     from datetime import datetime
+
+    from repid.connections.in_memory.consumer import _InMemoryConsumer
 
     from repid.data.protocols import ParametersT, RoutingKeyT
 
@@ -23,6 +27,21 @@ class DummyQueue:
     delayed: dict[datetime, list[Message]] = field(default_factory=dict)
     dead: list[Message] = field(default_factory=list)
     processing: set[Message] = field(default_factory=set)
+    # message id -> consumer, which has taken the message (while it is in `processing`)
+    taken_by: dict[str, _InMemoryConsumer] = field(default_factory=dict)
+
+    def put_back(self, msg: Message) -> None:
+        """Returns the message to the place it was taken from."""
+        consumer = self.taken_by.pop(msg.key.id_, None)
+        category = consumer.category if consumer is not None else MessageCategory.NORMAL
+        if category == MessageCategory.DEAD:
+            self.dead.append(msg)
+        elif (
+            category == MessageCategory.DELAYED and (delay := wait_until(msg.parameters)) is not None
+        ):
+            self.delayed.setdefault(delay, []).append(msg)
+        else:
+            self.simple.put_nowait(msg)
 
 
 def wait_until(params: ParametersT | None = None) -> datetime | None:
